@@ -173,7 +173,12 @@ class Ctx:
         self.opts = {
             'prune': True, 'prune_timeout_ms': 2000, 'float_mode': 'real', 'track_float': False,
             'unroll_limit': 256, 'mp_prec': 103,
+            # exploration budget of one context (wall clock): beyond it the executor gives up with an engine limit (-> bounded
+            # fallback) instead of exploring for hours; the slowest context on the unchanged tree needs about 100 s
+            'explore_budget_s': 600,
         }
+        self.t0 = None
+        self.n_stmts = 0
         self.assumptions = set()
         self.functions = {}       # qualified name -> {'file','sha256','ast_hash'}
         self.stats = {'paths': 0, 'prune_calls': 0, 'prune_s': 0.0}
@@ -981,6 +986,16 @@ class Exec:
                 yield q, out
 
     def exec_stmt(self, s, p):
+        c = self.ctx
+        c.n_stmts += 1
+        if c.t0 is None:
+            import time as _t
+            c.t0 = _t.time()
+        elif c.n_stmts % 64 == 0:
+            import time as _t
+            if _t.time() - c.t0 > c.opts['explore_budget_s']:
+                raise EngineError(f'exploration budget of {c.opts["explore_budget_s"]} s exceeded after {c.n_stmts} statements '
+                                  f'(path explosion: the code no longer fits the contracts\' invariants / unrolling bounds)')
         m = getattr(self, 'st_' + s.__class__.__name__, None)
         if m is None:
             raise EngineError(f'unsupported statement {s.__class__.__name__} at line {s.lineno}')
